@@ -246,34 +246,34 @@ Proof.
     destruct (c_exam c); [apply world_le_refl|].
     destruct (gate b s uidc true) as [[b0 o0]|] eqn:G; [|apply world_le_refl].
     apply gate_true in G.
-    destruct (admit_set w n b0 uidc set) as [[[b1 o1] sl]|] eqn:A;
+    destruct (admit_set w n b0 uidc set) as [[[b1a o1a] sl]|] eqn:A;
       [|cbn [fst]; apply world_le_set with b; [exact E|subst b0; apply le_flush]].
-    apply admit_set_ok in A.
+    apply admit_set_ok in A. split_pair (flush b1a s) b1 o1b.
     destruct (smem "\Recent" flags || existsb reserved_kw flags).
-    { cbn [fst]. apply world_le_set with b; [exact E|]. subst b1 b0. eapply box_le_trans; [apply le_flush|apply le_resync]. }
+    { cbn [fst]. apply world_le_set with b; [exact E|]. subst b1 b1a b0. eapply box_le_trans; [apply le_flush|]. eapply box_le_trans; [apply le_resync|apply le_flush]. }
     match goal with |- context [dispatch ?B ?D ?R] => split_pair (dispatch B D R) b3 o2 end.
     cbn [fst]. apply world_le_set with b; [exact E|].
     eapply box_le_trans; [|apply le_upd_client]. subst b3. eapply box_le_trans; [|apply le_dispatch].
     eapply box_le_trans; [|apply le_map_at; intros m0; apply le_store_touch].
-    subst b1 b0. eapply box_le_trans; [apply le_flush|apply le_resync].
+    subst b1 b1a b0. eapply box_le_trans; [apply le_flush|]. eapply box_le_trans; [apply le_resync|apply le_flush].
   - (* OFetch *)
     apply in_mbox_le. intros n b E. destruct (get_client b s) as [c|]; [|apply world_le_refl].
     destruct (gate b s uidc true) as [[b0 o0]|] eqn:G; [|apply world_le_refl].
     apply gate_true in G.
-    destruct (admit_set w n b0 uidc set) as [[[b1 o1] sl]|] eqn:A;
+    destruct (admit_set w n b0 uidc set) as [[[b1a o1a] sl]|] eqn:A;
       [|cbn [fst]; apply world_le_set with b; [exact E|subst b0; apply le_flush]].
-    apply admit_set_ok in A.
+    apply admit_set_ok in A. split_pair (flush b1a s) b1 o1b.
     match goal with |- context [dispatch ?B ?D ?R] => split_pair (dispatch B D R) b3 o2 end.
     split_pair (flush b3 s) b4 o3. cbn [fst]. apply world_le_set with b; [exact E|].
     subst b4. eapply box_le_trans; [|apply le_flush]. subst b3. eapply box_le_trans; [|apply le_dispatch].
     match goal with |- box_le b (set_msgs ?B (map_at ?F ?S (b_msgs b1) 1)) =>
       apply box_le_trans with B; [|apply (le_map_at B F S); intros m0; destruct k; repeat split] end.
-    eapply box_le_trans; [|apply le_upd_client]. subst b1 b0. eapply box_le_trans; [apply le_flush|apply le_resync].
+    eapply box_le_trans; [|apply le_upd_client]. subst b1 b1a b0. eapply box_le_trans; [apply le_flush|]. eapply box_le_trans; [apply le_resync|apply le_flush].
   - (* OSearch *)
     apply in_mbox_le. intros n b E.
-    destruct (gate b s uidc false) as [[b0 o0]|] eqn:G; [|apply world_le_refl].
-    rewrite admit_is_resync. split_pair (resync b0) b1 o1. cbn [fst].
-    apply world_le_set with b; [exact E|]. subst b1. eapply box_le_trans; [|apply le_resync].
+    destruct (gate b s uidc true) as [[b0 o0]|] eqn:G; [|apply world_le_refl].
+    rewrite admit_is_resync. split_pair (resync b0) b1a o1a. split_pair (flush b1a s) b1 o1b. cbn [fst].
+    apply world_le_set with b; [exact E|]. subst b1 b1a. eapply box_le_trans; [|apply le_flush]. eapply box_le_trans; [|apply le_resync].
     apply gate_any in G. destruct G as [->| ->]; [apply le_flush|apply box_le_refl].
   - (* OExpunge *)
     apply in_mbox_le. intros n b E. destruct (get_client b s) as [c|]; [|apply world_le_refl].
